@@ -301,7 +301,7 @@ theorem source_roundtrip_v31 (toks : List Tok) (t : Tree) (h : parse (tableOf op
     lexAll textTbl_v31 (textOf (render textTbl_v31 t)).length (textOf (render textTbl_v31 t)) =
       some (toks.flatMap (tokLex textTbl_v31)) ∧ parse (tableOf opTable_v31) t.yield = .ok t := by
   have hok := textOK_of_check opTable_v31 textTbl_v31 followCh_v31 startCh_v31 ntys_v31
-    (by intro n; show (_[n % 6]?).getD [] = (_[n % ntys_v31 % 6]?).getD []; simp [ntys_v31, Nat.mod_mod]) text_ok.2.2.2.1
+    (by intro n; show (_[n % 48]?).getD [] = (_[n % ntys_v31 % 48]?).getD []; simp [ntys_v31, Nat.mod_mod]) text_ok.2.2.2.1
   refine ⟨?_, parse_yield_idem _ toks t h⟩
   rw [source_lexes_back opTable_v31 textTbl_v31 _ _ hok t (pratt_wfr _ toks t h), pratt_yield _ toks t h]
 
@@ -310,7 +310,7 @@ theorem source_roundtrip_v20 (toks : List Tok) (t : Tree) (h : parse (tableOf op
     lexAll textTbl_v20 (textOf (render textTbl_v20 t)).length (textOf (render textTbl_v20 t)) =
       some (toks.flatMap (tokLex textTbl_v20)) ∧ parse (tableOf opTable_v20) t.yield = .ok t := by
   have hok := textOK_of_check opTable_v20 textTbl_v20 followCh_v20 startCh_v20 ntys_v20
-    (by intro n; show (_[n % 6]?).getD [] = (_[n % ntys_v20 % 6]?).getD []; simp [ntys_v20, Nat.mod_mod]) text_ok.2.1
+    (by intro n; show (_[n % 48]?).getD [] = (_[n % ntys_v20 % 48]?).getD []; simp [ntys_v20, Nat.mod_mod]) text_ok.2.1
   refine ⟨?_, parse_yield_idem _ toks t h⟩
   rw [source_lexes_back opTable_v20 textTbl_v20 _ _ hok t (pratt_wfr _ toks t h), pratt_yield _ toks t h]
 
@@ -319,7 +319,7 @@ theorem source_roundtrip_v10 (toks : List Tok) (t : Tree) (h : parse (tableOf op
     lexAll textTbl_v10 (textOf (render textTbl_v10 t)).length (textOf (render textTbl_v10 t)) =
       some (toks.flatMap (tokLex textTbl_v10)) ∧ parse (tableOf opTable_v10) t.yield = .ok t := by
   have hok := textOK_of_check opTable_v10 textTbl_v10 followCh_v10 startCh_v10 ntys_v10
-    (by intro n; show (_[n % 6]?).getD [] = (_[n % ntys_v10 % 6]?).getD []; simp [ntys_v10, Nat.mod_mod]) text_ok.1
+    (by intro n; show (_[n % 48]?).getD [] = (_[n % ntys_v10 % 48]?).getD []; simp [ntys_v10, Nat.mod_mod]) text_ok.1
   refine ⟨?_, parse_yield_idem _ toks t h⟩
   rw [source_lexes_back opTable_v10 textTbl_v10 _ _ hok t (pratt_wfr _ toks t h), pratt_yield _ toks t h]
 
